@@ -689,6 +689,10 @@ var catalogue = []string{
 	"toBool([]) ? 1 : 2",
 	"repr('a b')",
 	"x = 5; load('x') + 1",
+	// loads that keep no process text, of computed values
+	"&ca = 2d1 + 3; load('ca') + load('ca')",
+	"&cb = 4; &cb.k = 1; loadRaw('cb'); cb.k = 6; [this.cb, cb.k, load('cb')]",
+	"&cc = 5 * 2; func g2() { this.cc + load('cc') }; g2() + load('cc')",
 	"&y = 2d1 + 3; loadRaw('y')",
 	"store('z', 7); z * 2",
 	"typeId([1]) + typeId('s')",
@@ -889,6 +893,10 @@ var contentionTemplates = []string{
 	"ceil({t}.5) + floor({t}.5) + round({t}.5) + abs(0-{t})",
 	"toStr({t}) + repr('{t}') + toStr(toInt('{t}') + toFloat({t}))",
 	"q = {t}; load('q') + 1",
+	// loads that keep no process text (load, loadRaw, this.name, attribute assignment) of computed values
+	"&a = 2d1 + {t}; load('a') + load('a')",
+	"&a = {t}; &a.k = 1; loadRaw('a'); a.k = {t}; [this.a, a.k, load('a')]",
+	"&c = {t} * 2; func g2() { this.c + load('c') }; g2() + load('c')",
 	"store('z{t}', {t}); z{t} * 2",
 	"func g1(n) { n * {t} }; g1(3)",
 	"`a{ {t} + 1 }b{% {t} * 2 %}`",
